@@ -147,12 +147,20 @@ fn text_class(src: &str) -> &'static str {
 
 fn classify(ctx: &mut ShardCtx, src: &str, s: &FrontSummary) {
     let multibyte = !src.is_ascii();
-    if s.parse_diags > 0 {
-        ctx.class("parser reported diagnostics");
+    let verdict = if s.parse_diags > 0 {
+        "parser reported diagnostics"
     } else if s.has_error {
-        ctx.class("resolver reported errors");
+        "resolver reported errors"
     } else {
-        ctx.class("front end clean");
+        "front end clean"
+    };
+    ctx.class(verdict);
+    if src.len() <= 400 && (s.statements >= 2 || s.parse_diags + s.resolve_diags > 0) {
+        let cls = if multibyte { format!("{verdict}, multi-byte text") } else { verdict.to_string() };
+        ctx.sample(
+            &cls,
+            json!({"text": src, "statements": s.statements, "parse_diagnostics": s.parse_diags, "resolve_diagnostics": s.resolve_diags}),
+        );
     }
     if multibyte {
         ctx.class("contains multi-byte characters");
@@ -218,7 +226,12 @@ fn cli_gate(ctx: &mut ShardCtx, src: &str) -> Option<Failure> {
                 }
             } else {
                 ctx.class("CLI gate: accepted text");
-                if !marker_printed {
+                // A runtime diagnostic proves the text *was* executed (e.g. `shout("M4RK")\n(0)` is one
+                // statement, a call of a call result, which stops with "Type mismatch" before printing).
+                let reached_runtime = out.stdout.windows(14).any(|w| w == b"error[runtime]");
+                if !marker_printed && reached_runtime {
+                    ctx.class("CLI gate: accepted text stopped by a runtime diagnostic before the marker");
+                } else if !marker_printed {
                     return Some(Failure {
                         sig: "clean-text-not-executed".into(),
                         what: format!("front end clean but the marker was not printed (exit {code})\n--- text ---\n{}", show(&text)),
